@@ -37,7 +37,7 @@ def noise(g, nodes):
             out.append({"k": "x", "c": {"type": "text", "name": g.name("dis"), "label": "disabled row", "disabled": g.pick(["yes", "true", "TRUE"])}})
         if n["k"] in ("g", "r"):
             n["ch"] = noise(g, n["ch"])
-        elif g.p("_", 0.05):
+        elif n["k"] == "q" and g.p("_", 0.05):
             n["c"]["disabled"] = "no"
         out.append(n)
     return out
@@ -47,7 +47,7 @@ def noise(g, nodes):
 def _cases(draw):
     prof = dict(gen.PROFILES["struct"], p_repeat_count=0.4, p_or_other=0.2, p_params=0.6, p_appearance=0.3, p_custom_body=0.1,
                 p_external=0.06, p_entities=0.15, p_trigger=0.08, p_calc_on_visible=0.08, p_label_on_hidden=0.15, p_group_hint=0.12,
-                p_tag_names=0.05, p_osm=0.05, p_reuse_names=0.2, p_table_list=0.1, p_table_list_nested=0.4)
+                p_tag_names=0.05, p_osm=0.05, p_reuse_names=0.2, p_table_list=0.1, p_table_list_nested=0.4, p_empty_container=0.08)
     g = gen.G(draw, prof)
     form = gen.build_form(draw, prof, g=g)
     if g.p("_", 0.5):
